@@ -246,7 +246,7 @@ class World19:
         a = self.act
         if self.tainted:
             return "skipped"
-        try:
+        def exprs():
             args = [self.arg_expr(a, x) for x in step["args"]]
             res = []
             for rr in step["results"]:
@@ -256,13 +256,28 @@ class World19:
                     res.append(a.ocp.value(a.syms[rr[1]]))
                 else:
                     res.append(a.ocp.value(a.ocp.objective))
-        except KeyError:
-            return "skipped"
-        try:
-            f = a.ocp.to_function(step["name"], args, res)
-        except Exception as e:
-            raise Violation("to_function-raises", "to_function(%s, %s) raised %s: %s" % (step["args"], step["results"], type(e).__name__, str(e)[:300]))
-        self.funs[step["name"]] = {"f": f, "spec": a.spec.clone(), "step": jcopy(step)}
+            return args, res
+
+        f = None
+        prev = self.funs.get(step["name"])
+        if prev is not None and prev["step"]["args"] == step["args"] and prev["step"]["results"] == step["results"]:
+            # a user who exports again usually still holds the sampled expressions from the first time
+            try:
+                args, res = prev["exprs"]
+                f = a.ocp.to_function(step["name"], args, res)
+                self.probe("to_function_again_same_expressions")
+            except Exception:
+                f = None  # they belong to an earlier transcription: sample again
+        if f is None:
+            try:
+                args, res = exprs()
+            except KeyError:
+                return "skipped"
+            try:
+                f = a.ocp.to_function(step["name"], args, res)
+            except Exception as e:
+                raise Violation("to_function-raises", "to_function(%s, %s) raised %s: %s" % (step["args"], step["results"], type(e).__name__, str(e)[:300]))
+        self.funs[step["name"]] = {"f": f, "spec": a.spec.clone(), "step": jcopy(step), "exprs": (args, res)}
         self.probe("to_function_taken")
         return "ok"
 
@@ -393,6 +408,12 @@ def gen_run(r, w, emit):
     for i in range(r.randint(0, 3)):
         history_step()
     emit({"op": "evaluate", "name": "F1", "vals": vals})
+    if r.random() < 0.35:
+        # the function is exported again (same name, same expressions) after unlisted values have changed
+        for i in range(r.randint(1, 3)):
+            history_step()
+        emit({"op": "to_function", "name": "F1", "args": args, "results": res})
+        emit({"op": "evaluate", "name": "F1", "vals": [gen_val(r, a, info) for a in args]})
     if r.random() < 0.4:
         _, _, vals2 = gen_to_function(random.Random(r.randrange(1 << 30)), info)
         # same shapes as the first set: regenerate per arg
